@@ -317,6 +317,8 @@ func (b *Built) defineOpt(i int, g *getoptions.GetOpt) {
 	}
 	if !o.ModLast {
 		fns = append(fns, free...)
+	} else if o.SetCalled {
+		fns = append(fns, g.SetCalled(true)) // marking the option as called does not stand in for its environment variable
 	}
 	if len(o.Valid) > 0 {
 		fns = append(fns, g.ValidValues(StringsOf(o.Valid)...))
@@ -335,7 +337,7 @@ func (b *Built) defineOpt(i int, g *getoptions.GetOpt) {
 			fns = append(fns, g.GetEnv(FromAtoms(o.Env)))
 		}
 	}
-	if o.SetCalled {
+	if o.SetCalled && !o.ModLast {
 		fns = append(fns, g.SetCalled(true))
 	}
 	if o.ModLast {
